@@ -84,7 +84,10 @@ Inv_SameFn ==
     (\A i \in Eqs : OneCtx(C.eqs[i])) =>
         \A j, k \in Calls : (j < k /\ C.fns[j].fname = C.fns[k].fname) =>
             IF SameCircuit(j, k)
-            THEN ((SplitRan \/ (AnyIncons /\ C.inconsistency_reported)) /\ DigestOf(C.fns[j].call) = DigestOf(C.fns[k].call) /\ DigestOf(C.fns[j].call) # "")
+            THEN \/ (SplitRan /\ DigestOf(C.fns[j].call) = DigestOf(C.fns[k].call) /\ DigestOf(C.fns[j].call) # "")
+                 \* the split stops at the FIRST inconsistent call: later calls have no digest then
+                 \/ (~SplitRan /\ AnyIncons /\ C.inconsistency_reported
+                        /\ ((DigestOf(C.fns[j].call) # "" /\ DigestOf(C.fns[k].call) # "") => DigestOf(C.fns[j].call) = DigestOf(C.fns[k].call)))
             ELSE (C.inconsistency_reported /\ (DigestOf(C.fns[k].call) = "" \/ DigestOf(C.fns[j].call) # DigestOf(C.fns[k].call)))
 
 \* ---- every sub-circuit call is glued to its caller by paired blocks listing all arguments and results, equal values
